@@ -37,13 +37,42 @@ Theorem C01_roas_exact_last : forall (asn_of res_of simple_name aggr_name : N ->
   forall p : N, carries r' p <-> In p routes /\ held res_of cert p = true.
 Proof. exact roas_exact_last. Qed.
 
-(** The renewal of a key-roll activation keeps invariant and payloads - and does not look at the new certificate
-    (the model-level face of the known finding F04c, witness [renewal_overclaims] in rp/RoaDeriveProofs.v). *)
-Theorem C01_renewal_keeps : forall (asn_of simple_name aggr_name : N -> N) (sign : N -> list N -> obj) (r : roas),
+(** The renewal of a key-roll activation (rc.rs:581-592; create_renewal as repaired for finding F04c, 0ff85b31) keeps
+    the invariant, and the payloads afterwards are exactly the payloads carried before that the certificate of the
+    NEW key holds. *)
+Theorem C01_renewal_fixed_exact : forall (asn_of res_of simple_name aggr_name : N -> N) (sign : N -> list N -> obj) (cert : N) (r : roas),
   wf asn_of r ->
-  wf asn_of (apply_updates r (renewal simple_name aggr_name sign r)) /\
-  (forall p : N, carries (apply_updates r (renewal simple_name aggr_name sign r)) p <-> carries r p).
-Proof. exact renewal_keeps. Qed.
+  wf asn_of (apply_updates r (renewal_fixed res_of simple_name aggr_name sign cert r)) /\
+  (forall p : N, carries (apply_updates r (renewal_fixed res_of simple_name aggr_name sign cert r)) p <->
+                 carries r p /\ held res_of cert p = true).
+Proof. exact renewal_fixed_exact. Qed.
+
+(** Concretely: a class holding atoms {0,1} with payloads 1 (atom 0) and 3 (atom 1) whose new key is certified for atom 0
+    only publishes payload 1 alone after activation, exactly as a derivation under that certificate would; an
+    aggregate ROA keeps the authorisations that remain. *)
+Theorem C01_renewal_fixed_no_overclaim :
+  match ex_run [SDerive [1; 3] 3; SRenew 1] with Some r => payloads r = [1] | None => False end
+  /\ match ex_run [SDerive [1; 3] 3; SDerive [1; 3] 1] with Some r => payloads r = [1] | None => False end
+  /\ match ex_run [SDerive [1; 2; 3; 11] 3; SRenew 1] with
+     | Some r => payloads r = [1; 2; 11] /\ map fst (ro_simple r) = []
+     | None => False
+     end.
+Proof. exact renewal_fixed_no_overclaim. Qed.
+
+(** Regression witnesses for F04c: the renewal of the originally pinned tree kept every payload without looking at the
+    new certificate, and so left payload 3 published outside it. *)
+Theorem C01_renewal_pinned_keeps : forall (asn_of simple_name aggr_name : N -> N) (sign : N -> list N -> obj) (r : roas),
+  wf asn_of r ->
+  wf asn_of (apply_updates r (renewal_pinned simple_name aggr_name sign r)) /\
+  (forall p : N, carries (apply_updates r (renewal_pinned simple_name aggr_name sign r)) p <-> carries r p).
+Proof. exact renewal_pinned_keeps. Qed.
+
+Theorem C01_renewal_overclaims :
+  match ex_run [SDerive [1; 3] 3] with
+  | Some r => payloads (apply_updates r (renewal_pinned id id ex_sign r)) = [1; 3] /\ held ex_res 1 3 = false
+  | None => False
+  end.
+Proof. exact renewal_overclaims. Qed.
 
 (** The objects the API reports for a configured payload (configured_roas[*].roa_objects) are exactly the ROA objects
     of the class that carry it, and they are among the products handed to the published-object store. *)
@@ -127,6 +156,33 @@ Theorem C01_contained : forall (asn_of res_of simple_name aggr_name : N -> N) (s
   subset res cert = true.
 Proof. exact contained. Qed.
 
+(** L4 holds at key-roll activation too (no exception any more): after the renewal under the NEW key's certificate
+    every ROA, ASPA and router certificate the class publishes lies within that certificate. *)
+Theorem C01_contained_at_activation : forall (asn_of res_of simple_name aggr_name : N -> N) (sign : N -> list N -> obj)
+    (r : roas) (cert : N) (ares_of : N -> N) (asign : N -> list N -> obj) (ao : list (N * ainfo))
+    (kres_of : N -> N) (bsign : N -> obj) (bo : list (N * obj)) (children : list (N * N)),
+  wf asn_of r -> NoDup (map fst ao) -> NoDup (map fst bo) ->
+  (forall k res : N, In (k, res) children -> subset res cert = true) ->
+  forall res : N,
+  In res (published_resources res_of ares_of kres_of
+            (apply_updates r (renewal_fixed res_of simple_name aggr_name sign cert r))
+            (aspa_apply ao (aspa_renewal ares_of asign cert ao))
+            (bgp_apply bo (bgp_renewal kres_of bsign cert bo)) children) ->
+  subset res cert = true.
+Proof. exact contained_at_activation. Qed.
+
+Theorem C01_contained_fails_after_renewal :
+  match ex_run [SDerive [1; 3] 3] with
+  | Some r0 => let r := apply_updates r0 (renewal_pinned id id ex_sign r0) in
+               existsb (fun '(_, i) => negb (subset (roa_res ex_res (ri_auths i)) 1)) (ro_simple r ++ ro_aggr r) = true
+  | None => False
+  end
+  /\ match ex_run [SDerive [1; 3] 3; SRenew 1] with
+     | Some r => forallb (fun '(_, i) => subset (roa_res ex_res (ri_auths i)) 1) (ro_simple r ++ ro_aggr r) = true /\ payloads r = [1]
+     | None => False
+     end.
+Proof. exact contained_fails_after_renewal. Qed.
+
 (** * L5 - after a successful synchronisation the publisher's content is the object store's elements *)
 Theorem C01_repo_equals_objects_after_sync : forall (srv : list (N * N) -> list delem -> option (list (N * N)))
     (content elements : list (N * N)),
@@ -165,7 +221,10 @@ Print Assumptions C01_roas_exact.
 Print Assumptions C01_create_updates_total.
 Print Assumptions C01_roas_history_total.
 Print Assumptions C01_roas_exact_last.
-Print Assumptions C01_renewal_keeps.
+Print Assumptions C01_renewal_fixed_exact.
+Print Assumptions C01_renewal_fixed_no_overclaim.
+Print Assumptions C01_renewal_pinned_keeps.
+Print Assumptions C01_renewal_overclaims.
 Print Assumptions C01_api_reports_repo_objects.
 Print Assumptions C01_reported_are_products.
 Print Assumptions C01_aspa_exact.
@@ -177,6 +236,8 @@ Print Assumptions C01_republish_exact.
 Print Assumptions C01_listener_projects.
 Print Assumptions C01_manifest_of_exact_set.
 Print Assumptions C01_contained.
+Print Assumptions C01_contained_at_activation.
+Print Assumptions C01_contained_fails_after_renewal.
 Print Assumptions C01_repo_equals_objects_after_sync.
 Print Assumptions C01_sync_idempotent.
 Print Assumptions C01_validate_is_tree_result.
